@@ -306,9 +306,22 @@ def controller(call):
             pass
         b = bmc.BMPController("localhost")
         b.update_current_context(**call["bmp"])
+        if call.get("edit_structs"):
+            # the caller treats the first controller's public struct definitions as its own and edits them in place
+            sv = mc.structs[b"sv"]
+            sv.base += 4 * call["edit_structs"]
+            name = sorted(sv.fields)[call["edit_structs"] % len(sv.fields)]
+            sv.fields[name] = sv.fields[name]._replace(offset=sv.fields[name].offset + 4)
+            del mc.structs[sorted(k for k in mc.structs if k != b"sv")[0]]
         mc2 = mcm.MachineController("localhost")
         b2 = bmc.BMPController("localhost")
-        res = [first, d0, canon(mc2.get_context_arguments()), canon(b2.get_context_arguments())]
+
+        def structs_digest(st):
+            return sorted([repr(n), s_.base, s_.size, sorted([repr(f), tuple(v)] for f, v in s_.fields.items())]
+                          for n, s_ in st.items())
+        import hashlib
+        res = [first, d0, canon(mc2.get_context_arguments()), canon(b2.get_context_arguments()),
+               hashlib.sha1(repr(structs_digest(mc2.structs)).encode()).hexdigest()]
     except Exception as e:
         res = ["raised", type(e).__name__, str(e)[:80]]
     finally:
